@@ -76,13 +76,20 @@ def build_harness(name, sources, link_lib=True, extra=None, includes=None):
            "-I" + os.path.join(REPO, "src", "adfh"), "-I" + HDF5_INC, "-I" + os.path.join(ROOT, "harness")]
     for i in includes or []:
         cmd.append("-I" + i)
-    cmd += ["-o", out] + [s if os.path.isabs(s) else os.path.join(ROOT, "harness", s) for s in sources]
+    # the compiler writes to a private file that replaces the binary atomically: another check may be running the
+    # old binary at this very moment (cgio_h is shared by C02, C03, C16)
+    tmp = "%s.tmp.%d" % (out, os.getpid())
+    cmd += ["-o", tmp] + [s if os.path.isabs(s) else os.path.join(ROOT, "harness", s) for s in sources]
     if link_lib:
         cmd += [os.path.join(IMPL, "src", "libcgns.a")] + HDF5_LIBS
     cmd += extra or []
     with Lock("h_" + name + _TAG):
         rc, o = sh(cmd)
+        if rc == 0:
+            os.replace(tmp, out)
     if rc != 0:
+        if os.path.exists(tmp):
+            os.unlink(tmp)
         raise Infra("harness %s does not compile:\n%s" % (name, o[-4000:]))
     return out
 
